@@ -11,9 +11,11 @@ From Utp Require Import Sock.Dispatcher Sock.DispObs.
 From Utp Require Import Conn.C10_Pred Conn.C02_Pred.
 From Utp Require Import Conn.C17_Pred Conn.C03_Pred.
 From Utp Require Import Conn.C05_Pred Conn.C06_Pred.
-From Utp Require Import Conn.C07_Pred Conn.C18_Pred Conn.C09_Pred.
+From Utp Require Import Conn.C07_Pred Conn.C07_Pred2 Conn.C18_Pred Conn.C09_Pred.
 From Utp Require Import Pair.Pair.
+From Utp Require Import Conn.C04_Pred Conn.C0506_Pred2 Conn.C14C08_Pred Conn.C14_Pred2 Conn.C08_Pred2.
 From Utp Require Import Conn.C04_Pred Conn.C0506_Pred2 Conn.C14C08_Pred.
+From Utp Require Import Conn.C11_Pred Sock.DispC11_Pred Conn.C04_Pred2 Conn.C05_Pred3 Cubic.C15_Pred2.
 From Utp Require Import Conn.Recovery Conn.Msg Conn.VSockRec Conn.VSock Conn.VSockRun Conn.VObs.
 
 Extraction Language OCaml.
@@ -39,11 +41,15 @@ Extraction "model"
   c06_backoff_ok c06_cap_ok c06_emitted_live_ok c06_fast_retx_ok c06_stable_plen_ok c06_joint_ok c06_rp_exit_ok
   ACK_DELAY IMMEDIATE_ACK_EVERY_RMSS
   c07_immediate_ok c07_pre_monitor c07_delayed_ok c07_fires_ok c07_idle_silent_partial c07_window_update_ok
+  c07_reasm_change_ok c07_trigger_ok c07_dist_ok c07_pre_monitor_g
   c18_nagle_ok c18_pre_monitor
   pair_new_cubic ptrace_cubic c01_dir_bad c01_dir_ok c01_pair_ok c01_pair_guarded c01_kf1_class c01_kf1_class_dir
   c01_d17_class c01_d17_class_dir dchk0 pkt_size hacc_add hacc0
   c04_vsock_ack_ok c04_d19_class c06_no_resend_acked c05_rto_exit_ok c05_slow_start_ok
-  c14_datagram_ok c14_segments_ok c08_deadline_ok
+  c14_datagram_ok c14_segments_ok c08_deadline_ok c14_wire_ok c08_fires_ok
   c09_shift_ok c09_first_bad c09_within_tol drop_vsock poll_finished c03_post_drop_ok c03_drop_wakes_ok
   dstate_new dstep drun dtrace cleanup_accept_queue push_acceptor c12_step_ok c13_step_ok c12_syn_fresh_ok
+  c11_emitted_ok c11_conn_types_ok c11_config_ok c11_dstep_ok c04_consumed_honest_ok
+  c05_window_ok2 c05_rto_exit_ok2 c05_zero_window_ok_open c05_zero_window_strict_or_d16_open c05_monitor_core_ok c05_win_guard
+  c15_obs_ok_b setmss_runs_ok
   cubic_new cubic_trace c15_obs_ok c15_obs_core f64_view BETA_CUBIC C_CUBIC cbrt_cr.
